@@ -7,7 +7,7 @@
 Flow
   1. every translation unit (TU) is one Hypothesis example of gen_params.tu_spec(), drawn under
      @seed(derive(N, tu)) with database=None, deadline=None, report_multiple_bugs=False;
-     forced arities make the arity coverage deterministic (quick: 0,1,2,15; thorough: 0..15).
+     forced arities make the arity coverage deterministic (quick: 0,1,2,15 and the four declaration macros of every arity; thorough: 0..15).
   2. the TUs are emitted, compiled (ASan+UBSan) 16 in parallel, run, and their
      "F <function> <check> ok|FAIL" lines are parsed into one verdict per function.
   3. when a function fails, the same Hypothesis run is repeated with the shrink phase enabled and a
@@ -224,6 +224,9 @@ class Engine:
             for i in range(16):
                 # arities 0, 1, 2 and 15 are present deterministically (several times), the rest is drawn
                 forced = [(0, 15), (1, 15), (2,), (15,), (0, 2), (1,), (15, 2), ()][i % 8]
+                # the four declaration macros of arity i (MAKE_MOCKi, MAKE_CONST_MOCKi, IMPLEMENT_MOCKi, IMPLEMENT_CONST_MOCKi):
+                # every entry of the macro table is used in every run, whatever else is drawn
+                forced = tuple(forced) + ((i, False, "plain", "n"), (i, True, "plain", "n"), (i, False, "iface", "implement"), (i, True, "iface", "implement"))
                 tus.append(dict(idx=i, forced=forced, lo=6, hi=10, tc=Toolchain("clang++", "c++17")))
         else:
             comps = ["g++", "clang++"]
